@@ -49,12 +49,17 @@ def run_one(check, scn: dict) -> dict:
 
     from dsim.checks.base import InvalidScenario
 
+    from dsim.worlds import workspace
+
+    workspace.begin_run(digest({k: v for k, v in scn.items() if k not in ("seed", "run", "prop")}))
     try:
         out = check.execute(scn)
     except InvalidScenario as ex:
         return {"harness_error": "invalid scenario: %s" % ex, "invalid": True}
     except Exception:  # harness error: never a violation, never a success
         return {"harness_error": traceback.format_exc()[-3000:]}
+    finally:
+        workspace.end_run()
     res = {
         "viol": out.viol,
         "digest": digest(out.obs),
